@@ -9,7 +9,8 @@
 (*                real API.build (fields retry / timeout);                 *)
 (*   run = TRUE   one client call against the library generated from       *)
 (*                ConfigTab[cid], recorded by harness/drivers/retry.py     *)
-(*                (invoke attempt fault reply sleep return raise); the     *)
+(*                (invoke attempt fault reply sleep return raise) over grpc *)
+(*                (sync, asyncio) or rest (invoke.transport); the          *)
 (*                trace starts in the state reached by the LoadMethod      *)
 (*                steps (Inv_Loaded), script is the server's input.        *)
 (* Every action is  IsEvent(name) /\ <spec action> /\ <logged fields =     *)
@@ -35,7 +36,7 @@ ScriptOf(t) == [i \in 1..Len(Traces[t].script) |-> Traces[t].script[i]]
 ResetFor(t) == /\ cid' = Traces[t].cid /\ cfg' = CfgOf(t)
                /\ stage' = IF Traces[t].run THEN "loaded" ELSE "config"
                /\ res' = IF Traces[t].run THEN ResolveAll(CfgOf(t)) ELSE <<>>
-               /\ target' = N("", "") /\ ovr' = NoOvr /\ eff' = [retry |-> NoRetry, timeout |-> No]
+               /\ target' = N("", "") /\ transport' = "grpc" /\ ovr' = NoOvr /\ eff' = [retry |-> NoRetry, timeout |-> No]
                /\ script0' = <<>> /\ script' = <<>> /\ jit' = <<1, 1>>
                /\ attempt' = 0 /\ now' = 0 /\ bound' = 0 /\ pc' = "idle" /\ fault' = "" /\ sleeps' = <<>>
                /\ rpcTimeouts' = <<>> /\ faults' = <<>> /\ outcome' = "pending" /\ refused' = No
@@ -43,7 +44,7 @@ TInit == /\ tid = 1 /\ l = 1 /\ TLCSet(1, 0) /\ TLCSet(2, <<0, 0>>)
          /\ cid = Traces[1].cid /\ cfg = CfgOf(1)
          /\ stage = IF Traces[1].run THEN "loaded" ELSE "config"
          /\ res = IF Traces[1].run THEN ResolveAll(CfgOf(1)) ELSE <<>>
-         /\ target = N("", "") /\ ovr = NoOvr /\ eff = [retry |-> NoRetry, timeout |-> No]
+         /\ target = N("", "") /\ transport = "grpc" /\ ovr = NoOvr /\ eff = [retry |-> NoRetry, timeout |-> No]
          /\ script0 = <<>> /\ script = <<>> /\ jit = <<1, 1>>
          /\ attempt = 0 /\ now = 0 /\ bound = 0 /\ pc = "idle" /\ fault = "" /\ sleeps = <<>>
          /\ rpcTimeouts = <<>> /\ faults = <<>> /\ outcome = "pending" /\ refused = No
@@ -62,7 +63,7 @@ OvrOf(e) == [rmode |-> e.rmode,
                     deadline |-> e.r_deadline],
              timeout |-> e.timeout]
 TInvoke  == IsEvent("invoke") /\ Traces[tid].run
-            /\ Invoke([svc |-> Ev[l].svc, meth |-> Ev[l].meth], OvrOf(Ev[l]), ScriptOf(tid), <<1, 1>>)
+            /\ Invoke([svc |-> Ev[l].svc, meth |-> Ev[l].meth], Ev[l].transport, OvrOf(Ev[l]), ScriptOf(tid), <<1, 1>>)
 TAttempt == IsEvent("attempt") /\ Attempt /\ Last(rpcTimeouts') = Ev[l].timeout
 TFault   == IsEvent("fault") /\ ServerFault /\ fault' = Ev[l].code
 TReply   == IsEvent("reply") /\ ServerOk
